@@ -617,7 +617,8 @@ def runOp (op : String) (args : List String) : String :=
   | "deframe", chunks =>
     let cs := chunks.filterMap unhex
     let (ms, e) := readMsgs (cs.flatten.length + 1) cs
-    " ".intercalate ((ms.map hex) ++ [match e with | .eof => "eof" | .unexpected => "unexpected"])
+    -- a frame too short for a header is consumed and reported as a short read; the stream goes on behind it
+    " ".intercalate ((ms.map (fun m => if m.length < Gen.headerSize then "short" else hex m)) ++ [match e with | .eof => "eof" | .unexpected => "unexpected"])
   | "xchg.dgram", qid :: replies =>
     let rs := replies.map fun r => if r == "E" then Reply.err else Reply.msg (r.toNat?.getD 0)
     (match exchangeDatagram (qid.toNat?.getD 0) rs with
